@@ -73,6 +73,7 @@ func c08Run(e *Env) {
 	tr := PickTransport(t)
 	bw := t.Chance(1, 3)
 	nObs := 1 + t.Choose(3)
+	shortTokens := t.Chance(1, 3)
 	var w *CWorld
 	if IsDatagram(tr) {
 		cfg := SimUDPConfig(int32(t.Choose(65536)))
@@ -330,7 +331,21 @@ func c08Run(e *Env) {
 				o.call = e.NewCall(fmt.Sprintf("observe%d", o.idx), o.idx, nil, 3000*time.Second)
 				e.Logf("application registers obs%d", o.idx)
 				go func() {
-					ob, err := w.API.Observe(o.call.Ctx, fmt.Sprintf("/o%d", o.idx), func(n *pool.Message) {
+					observe := func(cb func(n *pool.Message)) (client.Observation, error) {
+						if !shortTokens {
+							return w.API.Observe(o.call.Ctx, fmt.Sprintf("/o%d", o.idx), cb, QueryOpt(o.idx))
+						}
+						// caller-chosen tokens that differ only in length: 50, 00 50, 00 00 50
+						req := w.API.AcquireMessage(o.call.Ctx)
+						defer w.API.ReleaseMessage(req)
+						tok := append(make([]byte, o.idx), 0x50)
+						if err := req.SetupGet(fmt.Sprintf("/o%d", o.idx), message.Token(tok), QueryOpt(o.idx)); err != nil {
+							return nil, err
+						}
+						req.SetObserve(0)
+						return w.API.DoObserve(req, cb)
+					}
+					ob, err := observe(func(n *pool.Message) {
 						ri := Snapshot(n)
 						if e.Pool.Enabled {
 							e.Pool.Hold(n, "notification inside its callback")
@@ -356,7 +371,7 @@ func c08Run(e *Env) {
 							e.Violate("C08.R2", "foreign-token-in-callback", "obs%d (token %x): callback invoked with token %x", o.idx, tok, ri.Token)
 						}
 						e.Notef("callback obs%d id=%d seq=%d", o.idx, id, seq)
-					}, QueryOpt(o.idx))
+					})
 					o.call.mu.Lock()
 					o.obs = ob
 					o.call.done, o.call.err, o.call.donePhase = true, err, e.Phase()
@@ -447,10 +462,15 @@ func c08Run(e *Env) {
 				}})
 			}
 		}
-		// a notification for a token that was never registered
+		// a notification for a token that was never registered (unrelated, or one zero byte longer than a registered one)
 		if t.Chance(1, 10) {
 			noteID++
-			w.Queue(&WMsg{Type: TNON, Code: 0x45, MID: w.NextPeerMID(), Token: []byte{0x7d, byte(noteID)}, Opts: []WOpt{UintOpt(OptObserve, 9)}, Payload: []byte(fmt.Sprintf("note-%d", noteID))}, "notification(unknown token)")
+			strayTok := []byte{0x7d, byte(noteID)}
+			if shortTokens && t.Chance(1, 2) {
+				strayTok = append(make([]byte, nObs), 0x50)
+				e.Probe("notification.tokenDiffersOnlyInLength")
+			}
+			w.Queue(&WMsg{Type: TNON, Code: 0x45, MID: w.NextPeerMID(), Token: strayTok, Opts: []WOpt{UintOpt(OptObserve, 9)}, Payload: []byte(fmt.Sprintf("note-%d", noteID))}, "notification(unknown token)")
 			e.Fault("msg.forged")
 		}
 		evs = append(evs, Event{Label: "advance", W: 2, Do: func() {
